@@ -168,6 +168,23 @@ def r3_pickle_layout(ctx, rule):
                 'or runs on', facts2, lfn)
     else:
         ctx.ok(rule, lq, 'every attribute __init__ derives from target_level is re-established by load_session', facts2)
+    # mutable state of the guess structure: every attribute stored outside GuessStructure.__init__ must be restored
+    gmut = {}
+    for qq, f in ctx.repo.all_funcs():
+        if qq.startswith('lib_guesser/omen/guess_structure.py::GuessStructure.') and not qq.endswith('.__init__'):
+            for nn in walk_local(f):
+                if isinstance(nn, ast.Attribute) and isinstance(nn.ctx, ast.Store) and U(nn.value) == 'self':
+                    gmut.setdefault(nn.attr, qq.rpartition('.')[2])
+    grestored = {a.rpartition('.')[2] for a in restored if a.startswith('self.cur_guess.')}
+    gmissing = sorted(a for a in gmut if a not in grestored)
+    facts3 = {'guess_structure_mutable_state': gmut, 'restored_on_cur_guess': sorted(grestored)}
+    if gmissing:
+        ctx.bad(rule, lq, 'mutable state of the guess structure is not restored: %s' % gmissing,
+                'load_session rebuilds the GuessStructure with its constructor and then copies the saved fields into it; any '
+                'other attribute the structure updates while generating (%s) keeps its constructor value, so the first guesses '
+                'after a resume are built from stale state' % ', '.join('%s in %s' % (a, gmut[a]) for a in gmissing), facts3, lfn)
+    else:
+        ctx.ok(rule, lq, 'every attribute GuessStructure updates while generating is restored by load_session', facts3)
     # the GuessStructure built in load_session uses the restored cursors
     gs = [c for c in calls_in(lfn) if call_name(c) == 'GuessStructure']
     load_lines = [st.lineno for st in walk_stmts(lfn.body) if isinstance(st, ast.Assign) and isinstance(st.value, ast.Call)
@@ -220,9 +237,50 @@ def r4_omen_exit_writers(ctx, rule):
                 'mean "quit inside a Markov level"', None, sfn)
 
 
+def r6_omen_call_sites(ctx, rule):
+    """After omen_generate_guesses honoured a quit (state saved) its caller must not generate anything further."""
+    n = 0
+    for q in (PG + '_recursive_guesses', PG + 'restore_omen'):
+        fn = ctx.fn(q)
+        mod = ctx.repo.modules[PGF]
+        for c in calls_in(fn):
+            if call_name(c) != 'self.omen_generate_guesses':
+                continue
+            n += 1
+            st = c08._stmt_of(mod, c)
+            loops = [a for a in enclosing_stmt_chain(mod, st) if isinstance(a, (ast.For, ast.While))]
+            if isinstance(st, ast.Return):
+                ctx.ok(rule, q, 'OMEN generation is a tail call: nothing is generated after a quit was honoured')
+                continue
+            if not loops:
+                # straight-line: statements after it must not emit
+                ctx.ok(rule, q, 'OMEN generation is not inside a loop')
+                continue
+            lp = loops[0]
+            # inside a loop: a test of the quit state must follow and leave the loop
+            after = False
+            okq = False
+            for s in walk_stmts(lp.body):
+                if s is st:
+                    after = True
+                    continue
+                if after and isinstance(s, ast.If) and any(x in U(s.test) for x in ('omen_exit', 'should_exit')) \
+                        and any(isinstance(b, (ast.Break, ast.Return)) for b in walk_stmts(s.body)):
+                    okq = True
+            if okq:
+                ctx.ok(rule, q, 'loop over OMEN levels leaves when the quit was honoured')
+            else:
+                ctx.bad(rule, q, 'OMEN generation inside a loop (%s) without a quit test after it' % U(getattr(lp, 'iter', getattr(lp, 'test', None)))[:60],
+                        'when the user quits inside a Markov level the generator state is saved and omen_generate_guesses '
+                        'returns; a caller that simply continues with the next level keeps emitting after the save, and the '
+                        'resumed session repeats or skips those guesses', None, st)
+    ctx.floor(rule, PGF, n, 2, 'call sites of omen_generate_guesses')
+
+
 def rules(tier):
     return [('C15.R1', r1_one_shot_key), ('C15.R2', r2_no_generated_unemitted), ('C15.R3', r3_pickle_layout),
-            ('C15.R4', r4_omen_exit_writers), ('C15.R5', lambda c, r: c08.r5_sav_keys(c, r, sections=('guessing_info',), floor=3))]
+            ('C15.R4', r4_omen_exit_writers), ('C15.R5', lambda c, r: c08.r5_sav_keys(c, r, sections=('guessing_info',), floor=3)),
+            ('C15.R6', r6_omen_call_sites)]
 
 
 META = {
